@@ -17,15 +17,52 @@ use weechess_engine::eval::{Evaluation, Evaluator};
 
 pub struct Case {
     pub root: Pos,
+    /// the recorded position: the successor of m1, or (ply 2) the position after m1 and one reply
     pub recorded: Pos,
     pub m1: OMove,
     /// shortest forced mate (plies) that never enters the recorded position or the root
     pub n2: usize,
+    /// first moves that cannot be mating under the rule: they enter the recorded position or allow the
+    /// defender to enter it at once
+    pub spoiled: Vec<OMove>,
+}
+
+fn spoiled_moves(p: &Pos, f: &HashSet<PKey>) -> Vec<OMove> {
+    p.legal_moves()
+        .into_iter()
+        .filter(|m| {
+            let c = p.make(m);
+            f.contains(&pkey(&c)) || c.legal_moves().iter().any(|r| f.contains(&pkey(&c.make(r))))
+        })
+        .collect()
+}
+
+/// roots with a little more material: K+Q v K+R and K+R v K+R (the root may be in check)
+fn random_four_man(rng: &mut gen::R) -> Pos {
+    loop {
+        let mut b = [0i8; 64];
+        let kinds: (i8, i8) = *[(5i8, 4i8), (4, 4), (5, 3), (5, 2)].choose(rng).unwrap();
+        let mut sqs = vec![];
+        while sqs.len() < 4 {
+            let s = rng.gen_range(0..64usize);
+            if !sqs.contains(&s) {
+                sqs.push(s);
+            }
+        }
+        b[sqs[0]] = 6;
+        b[sqs[1]] = -6;
+        b[sqs[2]] = kinds.0;
+        b[sqs[3]] = -kinds.1;
+        let p = Pos { b, wtm: true, castle: 0, ep: None, half: 0, full: 1 };
+        if p.is_legal_position() && !p.legal_moves().is_empty() {
+            return if rng.gen_bool(0.5) { p.mirror() } else { p };
+        }
+    }
 }
 
 /// find (root, recorded successor) pairs satisfying the property's precondition, by the solver
 pub fn find_case(rng: &mut gen::R, kinds: &[Kind], ev: &Evaluator, rep: &mut Report) -> Option<Case> {
-    let p = random_three_man(rng, kinds);
+    let p = if rng.gen_bool(0.25) { random_four_man(rng) } else { random_three_man(rng, kinds) };
     let root_key = pkey(&p);
     let mut f0: HashSet<PKey> = HashSet::new();
     f0.insert(root_key);
@@ -54,15 +91,29 @@ pub fn find_case(rng: &mut gen::R, kinds: &[Kind], ev: &Evaluator, rep: &mut Rep
             true
         });
     }
-    let recorded = p.make(&m1);
+    // record the successor of m1, or the position two plies down that line (after a defender's reply)
+    let after = p.make(&m1);
+    let replies = after.legal_moves();
+    let recorded = if !replies.is_empty() && rng.gen_bool(0.3) { after.make(replies.choose(rng).unwrap()) } else { after };
+    if pkey(&recorded) == root_key {
+        return None;
+    }
     let mut f = f0.clone();
     f.insert(pkey(&recorded));
     let mut sv = Solver::new(&f);
+    sv.node_limit = 2_000_000;
     let n2 = sv.mate_distance(&p, 5)?;
     if sv.aborted {
         return None;
     }
-    Some(Case { root: p, recorded, m1, n2 })
+    let spoiled = spoiled_moves(&p, &f);
+    if recorded.wtm == p.wtm {
+        rep.count("cases_recorded_two_plies_down", 1);
+    }
+    if p.in_check(p.wtm) {
+        rep.count("cases_with_root_in_check", 1);
+    }
+    Some(Case { root: p, recorded, m1, n2, spoiled })
 }
 
 /// `natural`: the recorded position enters the history the way it does in a game, by having been
@@ -77,12 +128,26 @@ pub fn scenario_for(rng: &mut gen::R, c: &Case, depth: usize, workers: usize, na
         steps.push(Step::new(&c.recorded.fen(), rng.gen_range(2..=5), *[1usize, 1, 2, 4].choose(rng).unwrap(), rng.gen()));
     } else {
         s.record = vec![c.recorded.fen()];
+        if rng.gen_bool(0.3) {
+            // a long game: hundreds of other positions recorded after it
+            let n = rng.gen_range(100..700);
+            let mut q = Pos::start();
+            for _ in 0..n {
+                let legal = q.legal_moves();
+                if legal.is_empty() || q.men() < 6 {
+                    q = Pos::start();
+                    continue;
+                }
+                q = q.make(legal.choose(rng).unwrap());
+                s.record.push(q.fen());
+            }
+        }
     }
     steps.push(s);
     Scenario { tables: 8, buckets: 1024, hasher_seed: rng.gen(), steps }
 }
 
-pub fn run_and_judge(sc: &Scenario, ev: &Evaluator, n2: Option<usize>, rep: &mut Report) -> bool {
+pub fn run_and_judge(sc: &Scenario, ev: &Evaluator, n2: Option<usize>, spoiled: &[OMove], rep: &mut Report) -> bool {
     let last = sc.steps.len() - 1;
     let natural = last > 0;
     let root = Pos::from_fen(&sc.steps[last].fen).unwrap();
@@ -119,6 +184,14 @@ pub fn run_and_judge(sc: &Scenario, ev: &Evaluator, n2: Option<usize>, rep: &mut
             return false;
         }
         let c = root.make(&om);
+        if sc.steps[last].record.len() > 50 {
+            rep.count("searches_with_long_histories", 1);
+        }
+        if spoiled.iter().any(|m| m.from == om.from && m.to == om.to && m.promo == om.promo) && !(c.b == recorded.b && c.wtm == recorded.wtm) {
+            rep.violation("repeating-move-chosen", &sig("repeating-move-chosen"), &format!("first move {} lets the defender re-enter the recorded position {} at once, yet a mate score {:?} is reported", Pos::lan(&om), rec_fen, e), replay);
+            ok = false;
+            return false;
+        }
         if c.b == recorded.b && c.wtm == recorded.wtm {
             rep.violation("repeating-move-chosen", &sig("repeating-move-chosen"), &format!("first move {} re-enters the recorded position {} ({}) although a mate score {:?} is reported", Pos::lan(&om), rec_fen, if natural { "a root of an earlier search on this memory" } else { "recorded through the hook" }, e), replay);
             ok = false;
@@ -157,7 +230,14 @@ pub fn run(ctx: &Ctx, rep: &mut Report) {
         let v: serde_json::Value = serde_json::from_slice(&std::fs::read(path).expect("replay file")).expect("replay json");
         let sc = Scenario::from_json(&v["scenario"]);
         for _ in 0..10 {
-            if !run_and_judge(&sc, &ev, None, rep) {
+            let root = Pos::from_fen(&sc.steps[sc.steps.len() - 1].fen).unwrap();
+            let last = sc.steps.len() - 1;
+            let rec = Pos::from_fen(if last > 0 { &sc.steps[0].fen } else { &sc.steps[last].record[0] }).unwrap();
+            let mut f: HashSet<PKey> = HashSet::new();
+            f.insert(pkey(&root));
+            f.insert(pkey(&rec));
+            let sp = spoiled_moves(&root, &f);
+            if !run_and_judge(&sc, &ev, None, &sp, rep) {
                 break;
             }
         }
@@ -177,9 +257,11 @@ pub fn run(ctx: &Ctx, rep: &mut Report) {
         }
         for d in [c.n2, c.n2 + 1, c.n2 + 2] {
             let w = *workers.choose(&mut rng).unwrap();
+            // a position two plies down cannot have been a root of this game's searches by the same side... it can
+            // (the opponent's reply was played): both flavours apply
             let natural = rng.gen_bool(0.5);
             let sc = scenario_for(&mut rng, &c, d, w, natural);
-            run_and_judge(&sc, &ev, Some(c.n2), rep);
+            run_and_judge(&sc, &ev, Some(c.n2), &c.spoiled, rep);
             n = n.saturating_sub(1);
         }
         if rep.samples.len() < 4 {
